@@ -855,6 +855,9 @@ class ClientSession:
                         # reading from correct redirection
                         # response is forbidden
                         resp.release()
+                        # The cancelled writer may be in the middle of a read:
+                        # the payload is sent again once it is out of use.
+                        await req._close()
 
                         try:
                             # bytes that are not UTF-8 arrive surrogate-escaped
